@@ -924,7 +924,9 @@ impl CrashParams {
     fn packets(&self) -> Vec<String> {
         let mut r = crate::src::Rng::new(self.seed);
         let np = (self.n % 40) + 1;
-        (0..np).map(|i| { let l = (r.next() % 30) as usize; format!("{i}:{}", "x".repeat(l)) }).collect()
+        // Some packets end in (or contain) a newline of their own: the sink
+        // still appends its separator to every packet.
+        (0..np).map(|i| { let l = (r.next() % 30) as usize; let tail = ["", "", "", "\n", "\n\n", "a\nb"][(r.next() % 6) as usize]; format!("{i}:{}{tail}", "x".repeat(l)) }).collect()
     }
     fn expected_stream(&self) -> Vec<u8> {
         if self.nocopy {
